@@ -1544,6 +1544,108 @@ def rule_R29(text, applied):
     return text
 
 
+def rule_R31(text, applied):
+    """slice patterns in match arms over arrays of Copy elements (Verus has no slice patterns):
+    `PATH([a, b]) => EXPR,` -> `PATH(spN_) => { let a = spN_[0]; let b = spN_[1]; EXPR },` -- destructuring a fixed-size
+    array of Copy elements is element-wise copying by index."""
+    cnt = 0
+    while True:
+        m_text = mask(text)
+        m = re.search(r"((?:\w+::)*\w+)\(\s*\[\s*(\w+(?:\s*,\s*\w+)*)\s*\]\s*\)\s*=>\s*", m_text)
+        if not m:
+            break
+        names = [x.strip() for x in m.group(2).split(",")]
+        # extent of the arm's expression: up to the top-level comma (or a block)
+        k = m.end()
+        if m_text[k] == "{":
+            e = match_close(m_text, k) + 1
+        else:
+            d_ = 0
+            e = k
+            while e < len(m_text):
+                ch = m_text[e]
+                if ch in "([{":
+                    d_ += 1
+                elif ch in ")]}":
+                    if d_ == 0:
+                        break
+                    d_ -= 1
+                elif ch == "," and d_ == 0:
+                    break
+                e += 1
+        expr = text[k:e]
+        sp = f"sp{cnt}_"
+        lets = " ".join(f"let {n_} = {sp}[{i_}];" for i_, n_ in enumerate(names))
+        new = f"{m.group(1)}({sp}) => {{ {lets} {expr} }}"
+        text = text[:m.start()] + _keep_newlines(text[m.start():e], new) + text[e:]
+        cnt += 1
+    if cnt:
+        applied.append(f"R31x{cnt}")
+    return text
+
+
+def rule_R30(text, applied):
+    """`ITER.fold(INIT, |mut ACC, X| { STMTS; ACC })` where ITER is a parameter that was materialised as a Vec (its
+    items in order) -> the loop that is the std definition of Iterator::fold:
+      { let mut ACC = INIT; let mut fiN_: usize = 0; while fiN_ < ITER.len() { let X = ITER[fiN_]; fiN_ += 1; STMTS } ACC }"""
+    cnt = 0
+    while True:
+        m_text = mask(text)
+        m = re.search(r"\b(\w+)\s*\.\s*fold\s*\(", m_text)
+        if not m:
+            break
+        op = m.end() - 1
+        cp = match_close(m_text, op)
+        inner_m = m_text[op + 1:cp]
+        cm = re.search(r",\s*\|\s*mut\s+(\w+)\s*,\s*(\w+)\s*\|\s*\{", inner_m)
+        if not cm:
+            raise ExtractError("R30: fold(INIT, |mut acc, x| { .. }) expected (outside the subset)")
+        init = text[op + 1:op + 1 + cm.start()].strip()
+        acc, x = cm.group(1), cm.group(2)
+        cob = op + 1 + cm.end() - 1
+        ccb = match_close(m_text, cob)
+        body = text[cob + 1:ccb]
+        mb = mask(body)
+        d_, last = 0, -1
+        for q, ch in enumerate(mb):
+            if ch in "([{":
+                d_ += 1
+            elif ch in ")]}":
+                d_ -= 1
+            elif ch == ";" and d_ == 0:
+                last = q
+        stm, tail_e = body[:last + 1], body[last + 1:].strip()
+        if tail_e != acc or re.search(r"\breturn\b", mask(stm)):
+            raise ExtractError("R30: the fold closure must end in its accumulator and not return early (outside the subset)")
+        it = m.group(1)
+        n = cnt
+        head = f"{{ let mut {acc} = {init}; let mut fi{n}_: usize = 0; while fi{n}_ < {it}.len() {{ let {x} = {it}[fi{n}_]; fi{n}_ += 1;"
+        text = text[:m.start()] + _keep_newlines(text[m.start():cob + 1], head) + stm + _keep_newlines(text[cob + 1 + len(stm):cp + 1], f"}} {acc} }}") + text[cp + 1:]
+        cnt += 1
+    if cnt:
+        applied.append(f"R30x{cnt}")
+    return text
+
+
+def rule_R26it(text, applied):
+    """a function that returns `E.iter().copied()` as `impl Iterator<Item = T> + '_`, where `E.iter()` is
+    `E.as_slice().iter()` (SmallVec::iter, small_vec.rs), is verified as the sequence that iterator yields: return type
+    `Vec<T>`, body `vcopied(E.as_slice())` (verified helper: the elements of the slice, in order)."""
+    m_text = mask(text)
+    rm = re.search(r"->\s*impl\s+Iterator\s*<\s*Item\s*=\s*(\w+)\s*>\s*\+\s*'_", m_text)
+    if not rm:
+        raise ExtractError("R26it: return type is not `impl Iterator<Item = T> + '_` (lost anchor)")
+    text = text[:rm.start()] + _keep_newlines(text[rm.start():rm.end()], f"-> Vec<{rm.group(1)}>") + text[rm.end():]
+    m_text = mask(text)
+    m = re.search(r"([\w\.\[\]]+?)\s*\.\s*iter\(\)\s*\.\s*copied\(\)", m_text)
+    if not m:
+        raise ExtractError("R26it: `E.iter().copied()` not found (outside the subset)")
+    recv = "".join(text[m.start(1):m.end(1)].split())
+    text = text[:m.start()] + _keep_newlines(text[m.start():m.end()], f"vcopied({recv}.as_slice())") + text[m.end():]
+    applied.append("R26it")
+    return text
+
+
 def rule_R8bitget(text, applied):
     """`E.get(I).as_deref().copied()` on a BitVec -> `E.vget(I)` (stub method: Some(bit) in range, None beyond)."""
     t, n = _sub_masked(text, r"\.\s*get\(([^\)]+)\)\s*\.\s*as_deref\(\)\s*\.\s*copied\(\)", lambda m, s: f".vget({m.group(1).strip()})")
@@ -1818,7 +1920,7 @@ RULES = {
     "R25": rule_R25, "R7optake": rule_R7optake,
     "R23": rule_R23, "R24": rule_R24,
     "R16push": rule_R16push, "R22": rule_R22, "R22flat": rule_R22flat,
-    "R20": rule_R20, "R21": rule_R21, "R7stackrev": rule_R7stackrev, "R7pairs": rule_R7pairs, "R7indexmap": rule_R7indexmap, "R12frozen": rule_R12frozen, "R29": rule_R29, "R7own": rule_R7own, "R28": rule_R28, "R27": rule_R27, "R8all": rule_R8all, "R16od": rule_R16od, "R10site": rule_R10site,
+    "R20": rule_R20, "R21": rule_R21, "R7stackrev": rule_R7stackrev, "R7pairs": rule_R7pairs, "R7indexmap": rule_R7indexmap, "R12frozen": rule_R12frozen, "R31": rule_R31, "R30": rule_R30, "R26it": rule_R26it, "R29": rule_R29, "R7own": rule_R7own, "R28": rule_R28, "R27": rule_R27, "R8all": rule_R8all, "R16od": rule_R16od, "R10site": rule_R10site,
     "R1": rule_R1, "R2": rule_R2, "R2ref": rule_R2ref, "R3": rule_R3, "R4": rule_R4, "R5": rule_R5,
     "R8max": rule_R8max, "R8cmpmax": rule_R8cmpmax, "R8resize_none": rule_R8resize_none, "R9": rule_R9, "R8position": rule_R8position, "R8rotate": rule_R8rotate, "R12refcell": rule_R12refcell,
     "R8slice": rule_R8slice, "R7iter": rule_R7iter, "R8bitget": rule_R8bitget, "R8intonext": rule_R8intonext, "R8rposition": rule_R8rposition, "R8contains": rule_R8contains, "R12cell": rule_R12cell, "R8resize_veccap": rule_R8resize_veccap, "R8collectid": rule_R8collectid, "R8index": rule_R8index, "subst": rule_subst,
